@@ -985,10 +985,21 @@ class NDCube(NDCubeBase):
         else:
             new_unit = self.unit
         new_data = self.data * value
-        new_uncertainty = (type(self.uncertainty)(self.uncertainty.array * value)
-                           if self.uncertainty is not None else None)
+        new_uncertainty = self._scale_uncertainty(value)
         new_cube = self._new_instance(data=new_data, unit=new_unit, uncertainty=new_uncertainty)
         return new_cube
+
+    def _scale_uncertainty(self, factor):
+        # Uncertainties are magnitudes: they scale with the size of the factor, never with its sign.
+        if self.uncertainty is None:
+            return None
+        if isinstance(self.uncertainty, astropy.nddata.InverseVariance):
+            new_array = self.uncertainty.array / np.abs(factor) ** 2
+        elif isinstance(self.uncertainty, astropy.nddata.VarianceUncertainty):
+            new_array = self.uncertainty.array * np.abs(factor) ** 2
+        else:
+            new_array = self.uncertainty.array * np.abs(factor)
+        return type(self.uncertainty)(new_array)
 
     def __rmul__(self, value):
         return self.__mul__(value)
